@@ -587,6 +587,20 @@ func (in *Interp) prepareCall(fr *frame, cc *ssa.CallCommon) (Value, []Value) {
 	if cc.IsInvoke() {
 		recv := in.get(fr, cc.Value).(Iface)
 		if recv.t == nil {
+			if cc.Method.Pkg() != nil && isNoopPkg(cc.Method.Pkg().Path()) {
+				// a metrics / logging object handed out by a no-op stub: its methods are no-ops too
+				sig := cc.Method.Type().(*types.Signature)
+				return &Func{name: "noop", native: func(in *Interp, args []Value) Value {
+					r := sig.Results()
+					switch r.Len() {
+					case 0:
+						return nil
+					case 1:
+						return in.zero(r.At(0).Type())
+					}
+					return in.zero(r)
+				}}, nil
+			}
 			in.throw("runtime error: invalid memory address or nil pointer dereference (method call on nil interface)")
 		}
 		fn := in.lookupMethod(recv.t, cc.Method)
@@ -620,9 +634,21 @@ func (in *Interp) doCall(fr *frame, cc *ssa.CallCommon, site ssa.Instruction, is
 	return in.callValue(fn, args, cc, site, isDefer)
 }
 
+// idx64 widens an index operand to 64 bits according to its type's signedness (a negative index stays negative,
+// i.e. a huge unsigned value that fails the bounds check; a byte index can address all 256 elements).
+func (in *Interp) idx64(v ssa.Value, t *sym.Term) *sym.Term {
+	if t.S.W >= 64 {
+		return t
+	}
+	if _, signed, ok := intInfo(v.Type()); ok && signed {
+		return in.ctx.SExt(t, 64)
+	}
+	return in.ctx.ZExt(t, 64)
+}
+
 func (in *Interp) index(fr *frame, x *ssa.Index) Value {
 	base := in.get(fr, x.X)
-	idx := in.get(fr, x.Index).(*sym.Term)
+	idx := in.idx64(x.Index, in.get(fr, x.Index).(*sym.Term))
 	c := in.ctx
 	switch b := base.(type) {
 	case *Agg:
@@ -673,7 +699,7 @@ func (in *Interp) selectElem(n int, idx *sym.Term, elem func(int) Value) Value {
 
 func (in *Interp) indexAddr(fr *frame, x *ssa.IndexAddr) Value {
 	base := in.get(fr, x.X)
-	idx := in.get(fr, x.Index).(*sym.Term)
+	idx := in.idx64(x.Index, in.get(fr, x.Index).(*sym.Term))
 	var arr *Cell
 	off, n := 0, 0
 	switch b := base.(type) {
@@ -707,7 +733,7 @@ func (in *Interp) lookup(fr *frame, x *ssa.Lookup) Value {
 	key := in.get(fr, x.Index)
 	switch b := base.(type) {
 	case *Str:
-		return in.selectElem(len(b.b), key.(*sym.Term), func(i int) Value { return b.b[i] })
+		return in.selectElem(len(b.b), in.idx64(x.Index, key.(*sym.Term)), func(i int) Value { return b.b[i] })
 	case *MapObj:
 		v, ok := in.mapGet(b, key)
 		if !ok {
